@@ -328,13 +328,19 @@ def jetexpand_ode_coefficient_double() -> JetExpansionAlg[problems.JetOde]:
         """
         zeros = np.zeros_like(c[0])
 
-        def vf_wrapped(*u):
-            [vfx] = vf.vector_field(jet_coords=u, t=t)
+        def vf_wrapped(u, t_):
+            [vfx] = vf.vector_field(jet_coords=(u,), t=t_)
             return vfx
 
         coeffs_emb = [*c] + [zeros] * degree
         p, *s = coeffs_emb
-        p_new, s_new = func.jet(vf_wrapped, (p,), (s,), is_tcoeff=True)
+
+        # The time evolves like t + h, so its (normalised) Taylor series is (t, 1, 0, ..., 0).
+        # Without it, the explicit time-dependence of the vector field would be ignored.
+        # (Integer-valued times are promoted to floating-point numbers.)
+        t0 = 1.0 * np.asarray(t)
+        s_time = [np.ones_like(t0), *[np.zeros_like(t0) for _ in range(len(s) - 1)]]
+        p_new, s_new = func.jet(vf_wrapped, (p, t0), (s, s_time), is_tcoeff=True)
         return np.stack([p_new, *s_new])
 
     return double
